@@ -112,6 +112,10 @@ class _STIXBase(collections.abc.Mapping):
             raise DependentPropertiesError(self.__class__, failed_dependency_pairs)
 
     def _check_object_constraints(self):
+        if 'granular_markings' not in self._properties:
+            # not a granular-markings list of this class, just a custom
+            # property that happens to have that name
+            return
         for m in self.get('granular_markings', []):
             validate(self, m.get('selectors'))
 
